@@ -2,7 +2,13 @@ package props
 
 import (
 	"fmt"
+	"os"
+	"path/filepath"
+	"runtime"
+	"syscall"
+	"sync/atomic"
 	"testing"
+	"time"
 
 	"github.com/bilibili/gengine/engine"
 	"pgregory.net/rapid"
@@ -19,11 +25,38 @@ type C17Op struct {
 }
 
 type C17Case struct {
-	PoolMin int64   `json:"pool_min"`
-	PoolMax int64   `json:"pool_max"`
-	EM      int     `json:"em"`
-	Ops     []C17Op `json:"ops"`
+	PoolMin int64     `json:"pool_min"`
+	PoolMax int64     `json:"pool_max"`
+	EM      int       `json:"em"`
+	Ops     []C17Op   `json:"ops"`
+	Storm   *C17Storm `json:"storm,omitempty"`
 }
+
+// C17Storm is a chain of hand-overs on a saturated pool: max-1 requests stay inside their rule
+// for the whole case, the last instance is passed along H1, H2, ...: H(n+1) is issued at the
+// moment Hn is let go, Offset(n) spin iterations later, so that it looks for an instance while
+// Hn's instance travels back. Whatever the interleaving, H(n+1) must enter its rule.
+type C17Storm struct {
+	N      int `json:"n"`
+	Seed   int `json:"seed"`
+	Step   int `json:"step"`
+	KMax   int `json:"kmax"`
+	Method int `json:"method"`
+}
+
+func (s *C17Storm) offset(n int) int { return ((n + s.Seed) * s.Step) % s.KMax }
+
+const c17StormRules = `
+rule "hold" "d" salience 10
+begin
+  hold(who.Id)
+  return who.Id
+end
+rule "aux" "d" salience 1
+begin
+  return 0
+end
+`
 
 const c17Rules = `
 rule "main" "d" salience 10
@@ -71,7 +104,7 @@ end
 func init() {
 	register(&Prop{
 		ID:   "C17",
-		Rule: "request histories on pools of size (1,2),(1,3),(2,3),(2,4),(3,6): start request (healthy / rule error / panicking injected function / type fault outside the self-recovering constructs / missing name / store into a nil map / wrong key kind / out-of-range element store and read; every request also binds a local and writes its own map and slice) through any of the 24 pool execute methods, release the k-th outstanding request; up to max+4 outstanding, every request parks inside its rule on a Hold gate keyed by its id; oracle after every step: the number of requests parked inside rules equals min(max, outstanding) within the bound (waiters proceed, nothing lost) and never exceeds max, every finished request returned its own id (two in-flight requests on one instance would overwrite each other's injected object), a request never fails because the pool is busy, and after the history max requests park simultaneously again. Non-trivial: at some point more than max requests are outstanding and a failing or panicking request finished before the final probe; distinct by case hash",
+		Rule: "request histories on pools of size (1,2),(1,3),(2,3),(2,4),(3,6): start request (healthy / rule error / panicking injected function / type fault outside the self-recovering constructs / missing name / store into a nil map / wrong key kind / out-of-range element store and read; every request also binds a local and writes its own map and slice) through any of the 24 pool execute methods, release the k-th outstanding request; up to max+4 outstanding, every request parks inside its rule on a Hold gate keyed by its id; oracle after every step: the number of requests parked inside rules equals min(max, outstanding) within the bound (waiters proceed, nothing lost) and never exceeds max, every finished request returned its own id (two in-flight requests on one instance would overwrite each other's injected object), a request never fails because the pool is busy, and after the history max requests park simultaneously again. 8% of the cases are hand-over storms instead: max-1 requests stay inside their rule, the last instance is passed along a chain of 100-800 (thorough 1500) requests, each issued a generated number of spin iterations after its predecessor is let go (at most four storms at a time across the shard processes); every next request must enter its rule within the hang bound after the previous one returned and must return its own id. Non-trivial: at some point more than max requests are outstanding and a failing or panicking request finished before the final probe, or a storm of >= 300 hand-overs; distinct by case hash",
 		New:  func() interface{} { return &C17Case{} },
 		Gen: func(t *rapid.T) interface{} {
 			c := &C17Case{}
@@ -79,6 +112,16 @@ func init() {
 			s := sizes[uni(t, "pool_size", 0, len(sizes)-1)]
 			c.PoolMin, c.PoolMax = s[0], s[1]
 			c.EM = uni(t, "em", 1, 4)
+			if pct(t, "storm", 8) {
+				c.PoolMin, c.PoolMax = 1, int64(uni(t, "storm_max", 2, 3))
+				hi := 800
+				if thorough() {
+					hi = 1500
+				}
+				c.Storm = &C17Storm{N: uni(t, "storm_n", 100, hi), Seed: uni(t, "storm_seed", 0, 9999), Step: []int{97, 37, 193, 11, 389}[uni(t, "storm_step", 0, 4)],
+					KMax: []int{2000, 8000, 20000, 50000}[uni(t, "storm_kmax", 0, 3)], Method: uni(t, "storm_m", 0, 23)}
+				return c
+			}
 			n := uni(t, "nops", 3, 24)
 			out := 0
 			for i := 0; i < n; i++ {
@@ -102,6 +145,10 @@ func init() {
 		},
 		Check: func(ci interface{}, x *Ctx) {
 			c := ci.(*C17Case)
+			if c.Storm != nil {
+				checkC17Storm(c, x)
+				return
+			}
 			h := newPoolHarness()
 			h.max = int(c.PoolMax)
 			p, err := engine.NewGenginePool(c.PoolMin, c.PoolMax, c.EM, c17Rules, h.apis())
@@ -268,6 +315,161 @@ func init() {
 			}
 		},
 	})
+}
+
+type c17Slot struct {
+	entered int32
+	release int32
+	done    chan gx.Result
+}
+
+var c17Sink int64
+
+func c17Spin(k int) {
+	v := int64(0)
+	for i := 0; i < k; i++ {
+		v += int64(i)
+	}
+	atomic.AddInt64(&c17Sink, v)
+}
+
+func c17WaitFlag(f *int32) {
+	for i := 0; atomic.LoadInt32(f) == 0; i++ {
+		if i > 20000 {
+			if i > 200000 {
+				time.Sleep(50 * time.Microsecond)
+			} else {
+				runtime.Gosched()
+			}
+		}
+	}
+}
+
+// c17Await polls flag until it is set; false if it stays unset for the whole bound. A hand-over
+// that needs more than a tenth of the bound is classified, not reported.
+func c17Await(f *int32, x *Ctx) bool {
+	start := time.Now()
+	for i := 0; atomic.LoadInt32(f) == 0; i++ {
+		if i > 2000 {
+			time.Sleep(20 * time.Microsecond)
+			if time.Since(start) > hangBound() {
+				return false
+			}
+		}
+	}
+	if time.Since(start) > hangBound()/10 {
+		x.Class("storm-slow-handover")
+	}
+	return true
+}
+
+// c17StormSlot serialises storms across the shard processes of one run: a storm needs a few
+// cores of its own for its spin-aligned hand-overs, so at most four run at any time (advisory
+// file locks beside the shards' output directories; a replay has the directory to itself).
+func c17StormSlot() func() {
+	dir := filepath.Dir(outDir())
+	for {
+		for i := 0; i < 4; i++ {
+			f, err := os.OpenFile(filepath.Join(dir, fmt.Sprintf("storm-slot-%d.lock", i)), os.O_CREATE|os.O_RDWR, 0o644)
+			if err != nil {
+				return func() {}
+			}
+			if syscall.Flock(int(f.Fd()), syscall.LOCK_EX|syscall.LOCK_NB) == nil {
+				return func() { syscall.Flock(int(f.Fd()), syscall.LOCK_UN); f.Close() }
+			}
+			f.Close()
+		}
+		time.Sleep(2 * time.Millisecond)
+	}
+}
+
+func checkC17Storm(c *C17Case, x *Ctx) {
+	st := c.Storm
+	defer c17StormSlot()()
+	slots := make([]*c17Slot, st.N+int(c.PoolMax)+2)
+	for i := range slots {
+		slots[i] = &c17Slot{done: make(chan gx.Result, 1)}
+	}
+	apis := map[string]interface{}{"hold": func(id int64) {
+		s := slots[id]
+		atomic.StoreInt32(&s.entered, 1)
+		if id < c.PoolMax-1 {
+			// the long runners do not spin
+			for atomic.LoadInt32(&s.release) == 0 {
+				time.Sleep(200 * time.Microsecond)
+			}
+			return
+		}
+		c17WaitFlag(&s.release)
+	}}
+	p, err := engine.NewGenginePool(c.PoolMin, c.PoolMax, c.EM, c17StormRules, apis)
+	if err != nil {
+		x.Violation("setup", "NewGenginePool: %v", err)
+		return
+	}
+	defer func() {
+		for _, s := range slots {
+			atomic.StoreInt32(&s.release, 1)
+		}
+	}()
+	methods := gx.MethodNames(true)
+	call := fullCall(methods[st.Method%len(methods)], []string{"hold", "aux"}, 0)
+	x.Class("storm-method:" + call.Method)
+	x.Class(fmt.Sprintf("storm-pool-max:%d", c.PoolMax))
+	exec := func(id int) {
+		data := map[string]interface{}{"who": &Payload{Id: int64(id)}}
+		slots[id].done <- gx.OnPool(p, call, data, &engine.Stag{})
+	}
+	// ids 0..max-2 are the long runners, id max-1 the first holder of the travelling instance
+	first := int(c.PoolMax) - 1
+	for id := 0; id <= first; id++ {
+		go exec(id)
+	}
+	for id := 0; id <= first; id++ {
+		if !c17Await(&slots[id].entered, x) {
+			x.Violation("storm-setup", "a fresh pool (%d,%d) did not run %d requests simultaneously", c.PoolMin, c.PoolMax, c.PoolMax)
+			return
+		}
+	}
+	for n := first; n < first+st.N; n++ {
+		k := st.offset(n)
+		h := slots[n]
+		var ready int32
+		go func(id int) {
+			atomic.StoreInt32(&ready, 1)
+			c17WaitFlag(&h.release)
+			c17Spin(k)
+			exec(id)
+		}(n + 1)
+		c17WaitFlag(&ready)
+		c17Spin(2000)
+		atomic.StoreInt32(&h.release, 1)
+		var res gx.Result
+		select {
+		case res = <-h.done:
+		case <-time.After(hangBound()):
+			x.Violation("storm-no-return", "hand-over %d: the request that was let go did not return", n-first)
+			return
+		}
+		if res.Panic != "" || res.Err != nil || fmt.Sprint(res.Map["hold"]) != fmt.Sprint(n) {
+			x.Violation("storm-result", "hand-over %d: request %d (%s) returned err=%v panic=%q result=%v", n-first, n, call.Method, res.Err, truncate(res.Panic, 200), sortedMap(res.Map))
+			return
+		}
+		// Hn has returned: max-1 requests are in flight, so H(n+1) must get an instance
+		if !c17Await(&slots[n+1].entered, x) {
+			select {
+			case r := <-slots[n+1].done:
+				x.Violation("storm-waiter-failed", "hand-over %d (offset %d): the request that found all instances busy ended without running its rule: err=%v panic=%q", n-first, k, r.Err, truncate(r.Panic, 200))
+			default:
+				x.Violation("storm-waiter-stuck", "hand-over %d (offset %d spin iterations, method %s): the next request is still waiting for an instance %v after the previous request returned, with %d requests in flight on a pool of max %d: a waiter does not proceed / an instance is lost", n-first, k, call.Method, hangBound(), c.PoolMax-1, c.PoolMax)
+			}
+			return
+		}
+	}
+	x.Class("storm-completed")
+	if st.N >= 300 {
+		x.NonTrivial()
+	}
 }
 
 func TestC17(t *testing.T) { runProp(t, "C17") }
